@@ -205,6 +205,80 @@ def scan_file(relpath, text):
   return sites, memos
 
 
+MUT_CTORS = {'dict', 'list', 'set', 'defaultdict', 'OrderedDict', 'Counter', 'deque', 'WeakValueDictionary', 'WeakKeyDictionary'}
+MUT_METHODS = {'add', 'append', 'extend', 'update', 'setdefault', 'pop', 'popitem', 'clear', 'insert', 'remove', 'discard', 'appendleft'}
+
+
+def scan_module_state(relpath, text):
+  """Module-level (or class-level) mutable containers that some function writes: process-wide state.
+  -> list of dict(file, func='<module>' or class, kind='module-state', expr=name, line, writers=[...])."""
+  try:
+    tree = ast.parse(text)
+  except SyntaxError:
+    return []
+
+  def is_mut(v):
+    if isinstance(v, (ast.Dict, ast.List, ast.Set, ast.DictComp, ast.ListComp, ast.SetComp)):
+      return True
+    if isinstance(v, ast.Call):
+      f = v.func
+      nm = f.attr if isinstance(f, ast.Attribute) else getattr(f, 'id', None)
+      return nm in MUT_CTORS
+    return False
+  cands = {}
+  for st in tree.body:
+    tgt, val = None, None
+    if isinstance(st, ast.Assign) and len(st.targets) == 1 and isinstance(st.targets[0], ast.Name):
+      tgt, val = st.targets[0].id, st.value
+    elif isinstance(st, ast.AnnAssign) and isinstance(st.target, ast.Name) and st.value is not None:
+      tgt, val = st.target.id, st.value
+    if tgt and is_mut(val):
+      cands[tgt] = st.lineno
+    if isinstance(st, ast.ClassDef):
+      for cs in st.body:
+        if isinstance(cs, ast.Assign) and len(cs.targets) == 1 and isinstance(cs.targets[0], ast.Name) and is_mut(cs.value):
+          cands['%s.%s' % (st.name, cs.targets[0].id)] = cs.lineno
+  if not cands:
+    return []
+  writers = {}
+  for fn in ast.walk(tree):
+    if not isinstance(fn, (ast.FunctionDef, ast.AsyncFunctionDef)):
+      continue
+    local = {a.arg for a in fn.args.args + fn.args.kwonlyargs + fn.args.posonlyargs}
+    for n in ast.walk(fn):
+      if isinstance(n, ast.Assign):
+        for t in n.targets:
+          if isinstance(t, ast.Name):
+            local.add(t.id)
+    for n in ast.walk(fn):
+      base = None
+      if isinstance(n, (ast.Assign, ast.AugAssign, ast.Delete)):
+        tgts = n.targets if isinstance(n, (ast.Assign, ast.Delete)) else [n.target]
+        for t in tgts:
+          if isinstance(t, ast.Subscript):
+            base = t.value
+      if isinstance(n, ast.Call) and isinstance(n.func, ast.Attribute) and n.func.attr in MUT_METHODS:
+        base = n.func.value
+      if isinstance(n, ast.Global):
+        for g in n.names:
+          if g in cands:
+            writers.setdefault(g, set()).add(fn.name)
+      if base is None:
+        continue
+      nm = None
+      if isinstance(base, ast.Name) and base.id in cands and base.id not in local:
+        nm = base.id
+      elif isinstance(base, ast.Attribute):
+        dotted = ast.unparse(base)
+        for c in cands:
+          if '.' in c and (dotted == c or dotted.endswith('.' + c.split('.')[1]) and dotted.split('.')[0] in ('cls', 'self', c.split('.')[0])):
+            nm = c
+      if nm:
+        writers.setdefault(nm, set()).add(fn.name)
+  return [dict(file=relpath, func='<module>', kind='module-state', expr=nm, line=cands[nm], writers=sorted(ws))
+          for nm, ws in sorted(writers.items())]
+
+
 def scan_repo(repo):
   sites, memos = [], []
   base = os.path.join(repo, 'pytype')
@@ -224,6 +298,7 @@ def scan_repo(repo):
       s, m = scan_file(os.path.relpath(p, repo), text)
       sites += s
       memos += m
+      memos += scan_module_state(os.path.relpath(p, repo), text)
   return sites, memos
 
 
@@ -239,7 +314,7 @@ def obligations(repo):
   sites, memos = scan_repo(repo)
   rev = load_reviewed()
   reviewed = {(r['file'], r['func'], r['kind'], r['expr']): r for r in rev['order']}
-  reviewed_memo = {(r['file'], r['func'], r['kind'], r['expr']) for r in rev.get('memo', [])}
+  reviewed_memo = {(r['file'], r['func'], r['kind'], r['expr']): r for r in rev.get('memo', [])}
   obls, used = [], []
   counts = {}
   for s in sites:
@@ -263,8 +338,15 @@ def obligations(repo):
     obls.append(o)
   for m in memos:
     ok = _key(m) in reviewed_memo
-    o = Obligation('C04/%s::%s/no-process-wide-memo#1' % (m['file'], m['func']), 'frame', [], z3.BoolVal(ok), line=m['line'],
-                   detail='function is memoised for the life of the process by `%s`: its answers depend on which equal argument was seen first' % m['expr'])
+    if ok:
+      used.append(dict(reviewed_memo[_key(m)], kind='process-wide state'))
+    if m['kind'] == 'module-state':
+      o = Obligation('C04/%s::%s/no-process-wide-state#1' % (m['file'], m['expr']), 'frame', [], z3.BoolVal(ok), line=m['line'],
+                     detail='module/class-level mutable container `%s` is written by %s: state that survives from one analysis to the next in the same process' % (
+                         m['expr'], ', '.join(m.get('writers', []))))
+    else:
+      o = Obligation('C04/%s::%s/no-process-wide-memo#1' % (m['file'], m['func']), 'frame', [], z3.BoolVal(ok), line=m['line'],
+                     detail='function is memoised for the life of the process by `%s`: its answers depend on which equal argument was seen first' % m['expr'])
     o.owner = m['func']
     o.prechecked = True
     o.status = 'proved' if ok else 'sat'
